@@ -30,6 +30,8 @@ ASSUMPTIONS = [
     'text round trip: coefficients below EQ_TOLERANCE are not printed by __str__, so equality after a plain-text cycle is required up to such terms (exact for all other terms)',
 ]
 OPEN_STATEMENTS = [
+    'parse_print_roundtrip / text_file_roundtrip are proved under the contract CoefOK (Python float()/complex() read the format() text of every printed coefficient back; no white space, brackets, colon or leading + in that text): the contract itself is checked on the real functions by the correspondence run, not proved',
+    'canonical-form hypothesis (simplify cls key = (1, key)) of the round-trip theorems: keys stored by the operator classes satisfy it (C01); it is a hypothesis here',
     'MolecularData.save / load: no Model, no theorem (oracle on random attribute assignments only)',
     'marshal is a contract (load(dump(x)) = x); the binary round trip theorem is stated over the value handed to marshal.dump',
 ]
